@@ -470,6 +470,10 @@ func nondetSource(f *types.Func) string {
 		}
 	case "crypto/rand":
 		return "crypto/rand." + n
+	case "hash/maphash":
+		// every Hash starts from a seed drawn at random per process (the zero Hash too): a digest of nothing but the input
+		// it is not
+		return "hash/maphash." + n + " (randomly seeded)"
 	case "os":
 		switch n {
 		case "Getenv", "LookupEnv", "Environ", "Getpid", "Getppid", "Hostname", "Getuid", "Getgid", "Getwd", "Executable", "UserHomeDir", "TempDir":
@@ -494,7 +498,7 @@ func nondetSource(f *types.Func) string {
 
 func (c *Ctx) ruleNondetSources() {
 	r := c.R
-	r.Rule("C06-NONDET-SOURCES", "no library function calls time.Now/Since, package-level math/rand, crypto/rand, os.Getenv/Getpid/Hostname..., runtime introspection, unsafe, reflect map iteration/pointers, or formats a pointer/func/chan with %p or %v", 1)
+	r.Rule("C06-NONDET-SOURCES", "no library function calls time.Now/Since, package-level math/rand, crypto/rand, hash/maphash (randomly seeded), os.Getenv/Getpid/Hostname..., runtime introspection, unsafe, reflect map iteration/pointers, or formats a pointer/func/chan with %p or %v", 1)
 	n := 0
 	for _, f := range c.libFns() {
 		ast.Inspect(f.Decl.Body, func(nd ast.Node) bool {
